@@ -17,8 +17,8 @@ func init() {
 		ID: "C03", Section: "3 C03",
 		Technique: "interprocedural eligibility dataflow on go/ssa: every backend on a success return derives from a list element guarded by Avail() and positive weight/credit; guard census for sub-cluster selection",
 		Meta: core.Meta{
-			Level: "other",
-			Explanation: "Decides that in bfe_balance/bal_slb every *BfeBackend returned together with a nil error is the .backend of a BackendRR element that, on the returning path, passed both `backend.Avail()` and `weight > 0` (or `current > 0` in simpleBalance), directly or through a candidate list built only from such elements (followed through phis, append, parameters and callee results); that BalanceGslb.Balance calls SubCluster.balance only on a sub-cluster dominated by the blackhole test on that same value, that randomSelectExclude's two loops use the same three-conjunct predicate (!= exclude, weight >= 0, sType != blackhole), that subClusterBalance's walk skips weight <= 0, that the single-sub-cluster index bal.avail is computed from the list after it was sorted and that list is the one published, and that every writer of BackendRR.weight is in the reviewed set. Not covered: that weights and availability flags themselves hold the right values at run time (health checking: C06), slow-start arithmetic.",
+			Level:       "other",
+			Explanation: "Decides that in bfe_balance/bal_slb every *BfeBackend returned together with a nil error is the .backend of a BackendRR element that, on the returning path, passed both `backend.Avail()` and `weight > 0` (or `current > 0` in simpleBalance), directly or through a candidate list built only from such elements (followed through phis, append, parameters and callee results); that BalanceGslb.Balance calls SubCluster.balance only on a sub-cluster dominated by the blackhole test on that same value, that randomSelectExclude's two loops use the same three-conjunct predicate (!= exclude, weight >= 0, sType != blackhole), that subClusterBalance's walk skips weight <= 0, that the single-sub-cluster index bal.avail is computed from the list after it was sorted and that list is the one published, and that every writer of BackendRR.weight is in the reviewed set. Not covered: that weights and availability flags themselves hold the right values at run time (health checking: C06), slow-start arithmetic. Robustness: eligibility facts are read in either comparison spelling and polarity, through named booleans (also `a && b` evaluated into a variable) and boolean predicate helpers with their parameters bound to the arguments; elements, lists and backends are followed through results and parameters of unexported helpers; Balance, subClusterBalance, randomSelectExclude and the avail/weight writers are examined together with their private helpers (regions), a helper called from two places being examined once per call path; randomSelectExclude's counting site is found by role (an increment that feeds the modulus of the random draw), its exclude operand is its own parameter by position. Not decided: values that travel through struct fields or closure-captured variables between the guard and the use (reported as not followable).",
 			RuleText:    "obligations = every success return of every selection function in bal_slb; each call of SubCluster.balance; predicate agreement instances; writers of BackendRR.weight and BalanceGslb.avail",
 		},
 		Run: runC03,
@@ -32,6 +32,22 @@ func init() {
 			{Name: "subcluster-walk-includes-zero", File: "bfe_balance/bal_gslb/bal_gslb.go", Old: "		if subCluster.weight <= 0 {\n			continue\n		}\n		w -= subCluster.weight", New: "		if subCluster.weight < 0 {\n			continue\n		}\n		w -= subCluster.weight", Expect: "subcluster-walk"},
 			{Name: "slowstart-skip-update", File: "bfe_balance/bal_slb/bal_rr.go", Old: "				backendRR.initSlowStart(brr.slowStartTime)\n", New: "				backendRR.initSlowStart(brr.slowStartTime)\n				continue\n", Expect: "slowstart-pairing"},
 			{Name: "avail-index-before-sort", File: "bfe_balance/bal_gslb/bal_gslb.go", Old: "	// sort list\n	sort.Sort(SubClusterListSorter{subListNew})\n", New: "", Expect: "avail-index"},
+			// behaviour-preserving refactorings: the verdict must not change
+			{Name: "silent-eligibility-predicate-helper", File: "bfe_balance/bal_slb/bal_rr.go", Old: "func smoothBalance(backs BackendList) (*backend.BfeBackend, error) {\n\tvar best *BackendRR\n\ttotal, max := 0, 0\n\n\tfor _, backendRR := range backs {\n\t\tbackend := backendRR.backend\n\t\t// skip ineligible backend\n\t\tif !backend.Avail() || backendRR.weight <= 0 {\n\t\t\tcontinue\n\t\t}\n", New: "func rrTakesPart(item *BackendRR) bool {\n\treturn item.backend.Avail() && 0 < item.weight\n}\n\nfunc smoothBalance(backs BackendList) (*backend.BfeBackend, error) {\n\tvar best *BackendRR\n\ttotal, max := 0, 0\n\n\tfor _, backendRR := range backs {\n\t\t// skip ineligible backend\n\t\tif !rrTakesPart(backendRR) {\n\t\t\tcontinue\n\t\t}\n", Silent: true},
+			{Name: "silent-updateweight-renamed-store-helper", File: "bfe_balance/bal_slb/backend_rr.go", Old: "func (backRR *BackendRR) UpdateWeight(weight int) {\n\tbackRR.weight = weight * 100\n\n\t// if weight > 0, don't touch backRR.current\n\tif weight <= 0 {\n\t\tbackRR.current = 0\n\t}\n}", New: "func (backRR *BackendRR) storeWeight(scaled int) {\n\tbackRR.weight = scaled\n}\n\nfunc (backRR *BackendRR) UpdateWeight(newWeight int) {\n\tscaled := 100 * newWeight\n\tbackRR.storeWeight(scaled)\n\n\t// if newWeight > 0, don't touch backRR.current\n\tif newWeight <= 0 {\n\t\tbackRR.current = 0\n\t}\n}", Silent: true},
+			{Name: "silent-cross-pick-helper", File: "bfe_balance/bal_gslb/bal_gslb.go", Old: "\tbackend, err = current.balance(balAlgor, hashKey)\n\tif err == nil {\n\t\treturn backend, nil\n\t}\n\n\t// fail to get backend from current sub-cluster\n\tstate.ErrBkNoBackend.Inc(1)\n\treq.ErrCode = bfe_basic.ErrBkNoBackend\n\treq.ErrMsg = fmt.Sprintf(\"cluster[%s], sub[%s], err[%s]\", bal.name, current.Name, err.Error())\n\tlog.Logger.Info(\"gslb.Balance():no backend(cross cluster):cluster[%s], sub[%s], err[%s]\",\n\t\tbal.name, current.Name, err.Error())\n\n\treturn backend, bfe_basic.ErrBkCrossRetryBalance\n}\n", New: "\tbackend, err = crossPick(current, balAlgor, hashKey)\n\tif err == nil {\n\t\treturn backend, nil\n\t}\n\n\t// fail to get backend from current sub-cluster\n\tstate.ErrBkNoBackend.Inc(1)\n\treq.ErrCode = bfe_basic.ErrBkNoBackend\n\treq.ErrMsg = fmt.Sprintf(\"cluster[%s], sub[%s], err[%s]\", bal.name, current.Name, err.Error())\n\tlog.Logger.Info(\"gslb.Balance():no backend(cross cluster):cluster[%s], sub[%s], err[%s]\",\n\t\tbal.name, current.Name, err.Error())\n\n\treturn backend, bfe_basic.ErrBkCrossRetryBalance\n}\n\n// crossPick balances inside the sub cluster chosen for the cross retry.\nfunc crossPick(target *SubCluster, algor int, key []byte) (*bal_backend.BfeBackend, error) {\n\treturn target.balance(algor, key)\n}\n", Silent: true},
+			{Name: "silent-smooth-logging-defensive", File: "bfe_balance/bal_slb/bal_rr.go", Old: "\tif best == nil {\n\t\tif bfe_debug.DebugBal {\n\t\t\tlog.Logger.Debug(\"rr_bal:reset backend weight\")\n\t\t}\n\t\treturn nil, fmt.Errorf(\"rr_bal:all backend is down\")\n\t}\n\n\t// update current weight for chosen backend\n", New: "\tif best == nil {\n\t\tif bfe_debug.DebugBal {\n\t\t\tlog.Logger.Debug(\"rr_bal:reset backend weight\")\n\t\t}\n\t\treturn nil, fmt.Errorf(\"rr_bal:all backend is down\")\n\t}\n\n\t// defensive: credits of eligible backends always sum up to a positive value\n\tif total < 0 {\n\t\tif bfe_debug.DebugBal {\n\t\t\tlog.Logger.Debug(\"rr_bal:negative credit sum[%d], chosen[%s]\", total, best.backend.Name)\n\t\t}\n\t}\n\n\t// update current weight for chosen backend\n", Silent: true},
+			{Name: "silent-reload-weights-helper", File: "bfe_balance/bal_gslb/bal_gslb.go", Old: "\t// calc total_weight\n\ttotalWeight := 0\n\tavailableNum := 0\n\tlastAvailIndex := 0\n\n\tfor index, sub := range subListNew {\n\t\tif sub.weight > 0 {\n\t\t\ttotalWeight += sub.weight\n\t\t\tavailableNum += 1\n\t\t\tlastAvailIndex = index\n\t\t}\n\t}\n\n\tif totalWeight == 0 {\n\t\t// should never be here, as ClusterCheck return true\n\t\tlog.Logger.Critical(\"gslb total weight = 0 [%s]\", bal.name)\n\t\treturn fmt.Errorf(\"gslb total weight = 0 [%s]\", bal.name)\n\t}\n\n\tbal.totalWeight = totalWeight\n\n\tif availableNum == 1 {\n\t\tbal.single = true\n\t\tbal.avail = lastAvailIndex\n\t} else {\n\t\tbal.single = false\n\t}\n\n\t// update gslb.subClusters\n\tbal.subClusters = subListNew\n\n\treturn nil\n}\n", New: "\t// calc total_weight\n\ttotalWeight, availableNum, lastAvailIndex := sumPositive(subListNew)\n\n\tif totalWeight == 0 {\n\t\t// should never be here, as ClusterCheck return true\n\t\tlog.Logger.Critical(\"gslb total weight = 0 [%s]\", bal.name)\n\t\treturn fmt.Errorf(\"gslb total weight = 0 [%s]\", bal.name)\n\t}\n\n\tbal.totalWeight = totalWeight\n\n\tif availableNum == 1 {\n\t\tbal.single = true\n\t\tbal.avail = lastAvailIndex\n\t} else {\n\t\tbal.single = false\n\t}\n\n\t// update gslb.subClusters\n\tbal.subClusters = subListNew\n\n\treturn nil\n}\n\n// sumPositive returns the weight sum and the number of sub clusters with\n// positive weight, and the index of the last of them.\nfunc sumPositive(list SubClusterList) (total int, num int, last int) {\n\tfor index, item := range list {\n\t\tif item.weight > 0 {\n\t\t\ttotal += item.weight\n\t\t\tnum++\n\t\t\tlast = index\n\t\t}\n\t}\n\treturn total, num, last\n}\n", Silent: true},
+			{Name: "silent-sticky-debug-logging", File: "bfe_balance/bal_slb/bal_rr.go", Old: "\tvalue := GetHash(key, uint(totalWeight))\n", New: "\tvalue := GetHash(key, uint(totalWeight))\n\tif bfe_debug.DebugBal {\n\t\tlog.Logger.Debug(\"rr_bal:sticky residue[%d] of [%d]\", value, totalWeight)\n\t}\n", Silent: true},
+			{Name: "silent-sticky-walk-index-loop", File: "bfe_balance/bal_slb/bal_rr.go", Old: "\tfor _, backendRR := range candidates {\n\t\tvalue -= backendRR.weight\n\t\tif value < 0 {\n\t\t\treturn backendRR.backend, nil\n\t\t}\n\t}\n", New: "\tfor i := 0; i < len(candidates); i++ {\n\t\tvalue -= candidates[i].weight\n\t\tif value >= 0 {\n\t\t\tcontinue\n\t\t}\n\t\treturn candidates[i].backend, nil\n\t}\n", Silent: true},
+			{Name: "silent-sticky-predicate-helper-renamed-key", File: "bfe_balance/bal_slb/bal_rr.go", Old: "func (brr *BalanceRR) stickyBalance(key []byte) (*backend.BfeBackend, error) {\n\tcandidates := make(BackendList, 0, brr.Len())\n\ttotalWeight := 0\n\n\tbrr.Lock()\n\tdefer brr.Unlock()\n\n\t// select available candidates\n\tbrr.ensureSortedUnlocked()\n\tfor _, backendRR := range brr.backends {\n\t\tif backendRR.backend.Avail() && backendRR.weight > 0 {\n", New: "func stickyUsable(item *BackendRR) bool {\n\tif !item.backend.Avail() {\n\t\treturn false\n\t}\n\treturn item.weight > 0\n}\n\nfunc (brr *BalanceRR) stickyBalance(hashKey []byte) (*backend.BfeBackend, error) {\n\tkey := hashKey\n\tcandidates := make(BackendList, 0, brr.Len())\n\ttotalWeight := 0\n\n\tbrr.Lock()\n\tdefer brr.Unlock()\n\n\t// select available candidates\n\tbrr.ensureSortedUnlocked()\n\tfor _, backendRR := range brr.backends {\n\t\tif stickyUsable(backendRR) {\n", Silent: true},
+			{Name: "silent-blackhole-named-mirrored", File: "bfe_balance/bal_gslb/bal_gslb.go", Old: "\t// blackhole\n\tif current.sType == TypeGslbBlackhole {\n", New: "\t// blackhole\n\tblackholed := TypeGslbBlackhole == current.sType\n\tif blackholed {\n", Silent: true},
+			{Name: "silent-subcluster-walk-nested-positive", File: "bfe_balance/bal_gslb/bal_gslb.go", Old: "\t\tif subCluster.weight <= 0 {\n\t\t\tcontinue\n\t\t}\n\t\tw -= subCluster.weight\n\t\t// got it\n\t\tif w < 0 {\n\t\t\tbreak\n\t\t}\n", New: "\t\tif 0 < subCluster.weight {\n\t\t\tw -= subCluster.weight\n\t\t\t// got it\n\t\t\tif w < 0 {\n\t\t\t\tbreak\n\t\t\t}\n\t\t}\n", Silent: true},
+			{Name: "silent-exclude-count-range-early-continue", File: "bfe_balance/bal_gslb/bal_gslb.go", Old: "\tfor i = 0; i < len(bal.subClusters); i++ {\n\t\tsubCluster = bal.subClusters[i]\n\t\tif subCluster != excludeCluster && subCluster.weight >= 0 &&\n\t\t\tsubCluster.sType != TypeGslbBlackhole {\n\t\t\tavailable++\n\t\t}\n\t}\n", New: "\tfor _, sc := range bal.subClusters {\n\t\tsubCluster = sc\n\t\tif sc == excludeCluster {\n\t\t\tcontinue\n\t\t}\n\t\tif sc.weight < 0 || TypeGslbBlackhole == sc.sType {\n\t\t\tcontinue\n\t\t}\n\t\tavailable += 1\n\t}\n", Silent: true},
+			{Name: "silent-simple-named-conjunction", File: "bfe_balance/bal_slb/bal_rr.go", Old: "\t\tavail := backend.Avail()\n\t\tif avail && backendRR.current > 0 {\n\t\t\t// find one available backend\n\t\t\tbreak\n\t\t}\n", New: "\t\tavail := backend.Avail()\n\t\tusable := avail && backendRR.current > 0\n\t\tif usable {\n\t\t\t// find one available backend\n\t\t\tbreak\n\t\t}\n", Silent: true},
+			{Name: "silent-balance-defensive-check", File: "bfe_balance/bal_gslb/bal_gslb.go", Old: "\t\treturn nil, bfe_basic.ErrGslbBlackhole\n\t}\n", New: "\t\treturn nil, bfe_basic.ErrGslbBlackhole\n\t}\n\tif current.backends == nil {\n\t\t// defensive: newSubCluster always creates the backend list\n\t\tlog.Logger.Warn(\"sub cluster [%s] has no backend list\", current.Name)\n\t\treq.ErrCode = bfe_basic.ErrBkNoBackend\n\t\treturn nil, bfe_basic.ErrBkNoBackend\n\t}\n", Silent: true},
+			{Name: "silent-tie-predicate-helper", File: "bfe_balance/bal_slb/bal_rr.go", Old: "\t\tif ret := compLCWeight(best, backendRR); ret == 0 {\n\t\t\tcandidates = append(candidates, backendRR)\n\t\t}\n\t}\n\n\treturn candidates, nil\n}\n", New: "\t\tif lcTied(best, backendRR) {\n\t\t\tcandidates = append(candidates, backendRR)\n\t\t}\n\t}\n\n\treturn candidates, nil\n}\n\nfunc lcTied(min, other *BackendRR) bool {\n\treturn compLCWeight(min, other) == 0\n}\n", Silent: true},
+			{Name: "silent-single-inverted-else-logging", File: "bfe_balance/bal_slb/bal_rr.go", Old: "\tif singleBackend {\n\t\tcandidates = append(candidates, best)\n\t\treturn candidates, nil\n\t}\n", New: "\tif !singleBackend {\n\t\t// several backends tie: collect them below\n\t} else {\n\t\tif bfe_debug.DebugBal {\n\t\t\tlog.Logger.Debug(\"lc_bal:single backend[%s]\", best.backend.Name)\n\t\t}\n\t\tcandidates = append(candidates, best)\n\t\treturn candidates, nil\n\t}\n", Silent: true},
 		},
 	})
 }
@@ -40,6 +56,7 @@ type eligCtx struct {
 	c        *core.Ctx
 	memoList map[ssa.Value]int // 0 unknown, 1 in progress/true, 2 false
 	fnRet    map[*ssa.Function]int
+	fnElem   map[string]int
 	why      string
 }
 
@@ -76,33 +93,12 @@ func guardsOnEdge(pred, succ *ssa.BasicBlock) []core.Guard {
 	return gs
 }
 
-// eligibleByGuards: the guards prove Avail(e.backend) and e.weight>0 (or e.current>0).
+// eligibleByGuards: the guards prove Avail(e.backend) and e.weight>0 (or
+// e.current>0). Comparisons are accepted in either spelling and polarity;
+// named booleans and boolean predicate helpers (`eligible(e)`) are expanded
+// into the conditions they imply.
 func eligibleByGuards(e ssa.Value, gs []core.Guard) (avail, positive bool) {
-	for _, g := range gs {
-		cond := g.Cond
-		// Avail(e.backend) — possibly via a local bool
-		if call, ok := cond.(*ssa.Call); ok && g.Pol && core.CallIs(&call.Call, "bfe_balance/backend.BfeBackend.Avail") {
-			if x := fieldLoadOf(call.Call.Args[0], "backend"); x != nil && sameElem(x, e) {
-				avail = true
-			}
-		}
-		if b, ok := cond.(*ssa.BinOp); ok {
-			for _, fld := range []string{"weight", "current"} {
-				x := fieldLoadOf(b.X, fld)
-				if x == nil || !sameElem(x, e) {
-					continue
-				}
-				k, isK := b.Y.(*ssa.Const)
-				if !isK || k.Value == nil || k.Value.ExactString() != "0" {
-					continue
-				}
-				if (b.Op == token.GTR && g.Pol) || (b.Op == token.LEQ && !g.Pol) {
-					positive = true
-				}
-			}
-		}
-	}
-	return
+	return balEligible(e, balExpand(gs))
 }
 
 // sameElem: two SSA values denote the same list element (identical value or
@@ -144,11 +140,71 @@ func (e *eligCtx) elem(v ssa.Value, gs []core.Guard, seen map[ssa.Value]bool) bo
 				return false
 			}
 		}
+	case *ssa.Call, *ssa.Extract:
+		// the element is the result of a helper: every value the helper can return there is eligible
+		if _, h, idx := balCallee(x); h != nil {
+			return e.fnReturnsEligibleElem(h, idx)
+		}
+	case *ssa.Parameter:
+		// parameter of an unexported helper: every call site passes an element that is eligible there
+		fn := x.Parent()
+		idx := balParamIndex(x)
+		if fn.Parent() == nil && fn.Object() != nil && !fn.Object().Exported() && idx >= 0 {
+			sites := balSites(e.c.P, fn)
+			ok := len(sites) > 0
+			seen[x] = true
+			for _, s := range sites {
+				if idx >= len(s.Common().Args) || !e.elem(s.Common().Args[idx], core.GuardsAt(s.Block()), seen) {
+					ok = false
+					if e.why == "" {
+						e.why = "caller " + core.FuncKey(s.Parent()) + " passes an element that is not known to be eligible as " + x.Name()
+					}
+					break
+				}
+			}
+			if ok {
+				return true
+			}
+			return false
+		}
 	}
 	if e.why == "" {
 		e.why = "value " + core.Render(v) + " is not a guarded list element"
 	}
 	return false
+}
+
+// fnReturnsEligibleElem: every value fn returns as result #idx (on returns
+// that do not carry a non-nil error) is nil or an eligible element.
+func (e *eligCtx) fnReturnsEligibleElem(fn *ssa.Function, idx int) bool {
+	if e.fnElem == nil {
+		e.fnElem = map[string]int{}
+	}
+	key := fmt.Sprintf("%p#%d", fn, idx)
+	if s := e.fnElem[key]; s != 0 {
+		return s == 1
+	}
+	e.fnElem[key] = 1
+	ok := true
+	for _, r := range core.Returns(fn) {
+		rv := core.RetVals(r)
+		if idx >= len(rv) {
+			ok = false
+			break
+		}
+		last := rv[len(rv)-1]
+		if len(rv) > 1 && types.Identical(last.Type(), types.Universe.Lookup("error").Type()) && !isNilConst(last) && errKnownNonNil(last, r.Block()) {
+			continue // error return
+		}
+		gs := core.GuardsAt(r.Block())
+		if !e.elem(rv[idx], gs, map[ssa.Value]bool{}) {
+			ok = false
+		}
+	}
+	if !ok {
+		e.fnElem[key] = 2
+	}
+	return ok
 }
 
 // list: every element of the slice value is an eligible BackendRR.
@@ -192,31 +248,22 @@ func (e *eligCtx) list(v ssa.Value, seen map[ssa.Value]bool) bool {
 		if b, ok := x.Call.Value.(*ssa.Builtin); ok && b.Name() == "append" {
 			return e.list(x.Call.Args[0], seen) && e.list(x.Call.Args[1], seen)
 		}
+		if _, h, idx := balCallee(x); h != nil {
+			return e.fnReturnsEligibleList(h, idx)
+		}
 	case *ssa.Extract:
-		if call, ok := x.Tuple.(*ssa.Call); ok {
-			if callee := call.Call.StaticCallee(); callee != nil && callee.Blocks != nil {
-				return e.fnReturnsEligibleList(callee, x.Index)
-			}
+		if _, h, idx := balCallee(x); h != nil {
+			return e.fnReturnsEligibleList(h, idx)
 		}
 	case *ssa.Parameter:
 		fn := x.Parent()
-		idx := -1
-		for i, p := range fn.Params {
-			if p == x {
-				idx = i
-			}
-		}
+		idx := balParamIndex(x)
 		sites := 0
-		for _, f := range e.c.P.SrcFuncs("") {
-			for _, ci := range core.AllCalls(f) {
-				if ci.Common().StaticCallee() != fn {
-					continue
-				}
-				sites++
-				if !e.list(ci.Common().Args[idx], map[ssa.Value]bool{}) {
-					e.why = "caller " + core.FuncKey(f) + " passes " + core.Render(ci.Common().Args[idx]) + " as " + x.Name() + ", a list not restricted to eligible backends"
-					return false
-				}
+		for _, ci := range balSites(e.c.P, fn) {
+			sites++
+			if idx < 0 || idx >= len(ci.Common().Args) || !e.list(ci.Common().Args[idx], map[ssa.Value]bool{}) {
+				e.why = "caller " + core.FuncKey(ci.Parent()) + " passes " + core.Render(ci.Common().Args[idx]) + " as " + x.Name() + ", a list not restricted to eligible backends"
+				return false
 			}
 		}
 		if sites == 0 || (fn.Object() != nil && fn.Object().Exported()) {
@@ -229,6 +276,9 @@ func (e *eligCtx) list(v ssa.Value, seen map[ssa.Value]bool) bool {
 }
 
 func (e *eligCtx) fnReturnsEligibleList(fn *ssa.Function, idx int) bool {
+	if e.fnRet == nil {
+		e.fnRet = map[*ssa.Function]int{}
+	}
 	key := fn
 	if s := e.fnRet[key]; s != 0 {
 		return s == 1
@@ -243,7 +293,7 @@ func (e *eligCtx) fnReturnsEligibleList(fn *ssa.Function, idx int) bool {
 				continue // error return
 			}
 		}
-		if !e.list(rv[idx], map[ssa.Value]bool{}) {
+		if idx >= len(rv) || !e.list(rv[idx], map[ssa.Value]bool{}) {
 			ok = false
 		}
 	}
@@ -253,7 +303,101 @@ func (e *eligCtx) fnReturnsEligibleList(fn *ssa.Function, idx int) bool {
 	return ok
 }
 
+// errNilGuarded: the facts establish that the error result of the call that
+// produced v (v = result #0 of a two-result call) is nil.
+func errNilGuarded(v ssa.Value, facts []balFact) bool {
+	ex, ok := core.StripConv(v).(*ssa.Extract)
+	if !ok || ex.Index != 0 {
+		return false
+	}
+	for _, f := range facts {
+		if x, isNil, ok := balNilTest(f); ok && isNil {
+			if ex1, isEx := x.(*ssa.Extract); isEx && ex1.Tuple == ex.Tuple && ex1.Index == 1 {
+				return true
+			}
+		}
+	}
+	return false
+}
+
+// isSelectionFunc: fn has the signature (... ) (*backend.BfeBackend, error).
+func isSelectionFunc(fn *ssa.Function) bool {
+	res := fn.Signature.Results()
+	return res.Len() == 2 && strings.HasSuffix(core.TypeStr(res.At(0).Type()), "backend.BfeBackend") && types.Identical(res.At(1).Type(), types.Universe.Lookup("error").Type())
+}
+
+// backendOK: the backend value v, returned with a nil error under guards gs,
+// is the .backend of an eligible list element — directly, on every edge of a
+// phi, as the result of another selection function of bal_slb under err ==
+// nil (that function's own returns are obligations of this rule), or as the
+// result of a helper whose every return is such a backend.
+func (e *eligCtx) backendOK(v ssa.Value, gs []core.Guard, depth int) bool {
+	const slb = "bfe_balance/bal_slb"
+	v = core.StripConv(v)
+	if x := fieldLoadOf(v, "backend"); x != nil {
+		// guards: those at the return plus those at the block where the field was loaded
+		if ins, ok := v.(ssa.Instruction); ok {
+			gs = append(append([]core.Guard(nil), gs...), core.GuardsAt(ins.Block())...)
+		}
+		return e.elem(x, gs, map[ssa.Value]bool{})
+	}
+	if depth > 3 {
+		e.why = "value " + core.Render(v) + " could not be followed"
+		return false
+	}
+	switch x := v.(type) {
+	case *ssa.Phi:
+		for i, ed := range x.Edges {
+			if isNilConst(ed) {
+				e.why = "a nil backend can be returned with a nil error"
+				return false
+			}
+			if !e.backendOK(ed, guardsOnEdge(x.Block().Preds[i], x.Block()), depth+1) {
+				return false
+			}
+		}
+		return true
+	case *ssa.Extract, *ssa.Call:
+		_, h, idx := balCallee(x)
+		if h == nil || core.FuncPkgRel(h) != slb {
+			break
+		}
+		if isSelectionFunc(h) && idx == 0 {
+			if errNilGuarded(v, balExpand(gs)) {
+				return true
+			}
+			e.why = "result of " + core.FuncKey(h) + " is handed out without err == nil having been tested"
+			return false
+		}
+		if h.Signature.Results().Len() == 1 {
+			nonNil := false
+			for _, f := range balExpand(gs) {
+				if y, isNil, ok := balNilTest(f); ok && !isNil && y == v {
+					nonNil = true
+				}
+			}
+			for _, r := range core.Returns(h) {
+				rv := core.RetVals(r)
+				if isNilConst(rv[0]) {
+					if nonNil {
+						continue
+					}
+					e.why = core.FuncKey(h) + " can return nil and the caller does not test it"
+					return false
+				}
+				if !e.backendOK(rv[0], core.GuardsAt(r.Block()), depth+1) {
+					return false
+				}
+			}
+			return true
+		}
+	}
+	e.why = "returned backend " + core.Render(v) + " is not the .backend of a BackendRR list element; eligibility cannot be established"
+	return false
+}
+
 func runC03(c *core.Ctx) {
+	defer balAcquire(c.P)()
 	const slb = "bfe_balance/bal_slb"
 	const gslb = "bfe_balance/bal_gslb"
 	if c.P.Pkg(slb) == nil || c.P.Pkg(gslb) == nil {
@@ -261,12 +405,10 @@ func runC03(c *core.Ctx) {
 		return
 	}
 	e := &eligCtx{c: c, memoList: map[ssa.Value]int{}, fnRet: map[*ssa.Function]int{}}
-	errT := types.Universe.Lookup("error").Type()
 	// ---- every selection function of bal_slb -----------------------------
 	nsel := 0
 	for _, fn := range c.P.SrcFuncs(slb) {
-		res := fn.Signature.Results()
-		if res.Len() != 2 || !strings.HasSuffix(core.TypeStr(res.At(0).Type()), "backend.BfeBackend") || !types.Identical(res.At(1).Type(), errT) {
+		if !isSelectionFunc(fn) {
 			continue
 		}
 		nsel++
@@ -302,18 +444,8 @@ func runC03(c *core.Ctx) {
 				c.Check("eligible-return", key, r.Pos(), false, "returns (nil, nil): no backend and no error")
 				continue
 			}
-			x := fieldLoadOf(r0, "backend")
-			if x == nil {
-				c.Check("eligible-return", key, r.Pos(), false, "returned backend "+core.Render(r0)+" is not the .backend of a BackendRR list element; eligibility cannot be established")
-				continue
-			}
 			e.why = ""
-			// guards: those at the return plus those at the block where the field was loaded
-			gs := core.GuardsAt(r.Block())
-			if ins, ok := core.StripConv(r0).(ssa.Instruction); ok {
-				gs = append(gs, core.GuardsAt(ins.Block())...)
-			}
-			ok := e.elem(x, gs, map[ssa.Value]bool{})
+			ok := e.backendOK(r0, core.GuardsAt(r.Block()), 0)
 			c.Check("eligible-return", key, r.Pos(), ok, "a backend is returned with a nil error without having passed Avail() and weight>0 on this path: "+e.why)
 		}
 	}
@@ -328,12 +460,13 @@ func runC03(c *core.Ctx) {
 	} else {
 		c.Analysed(core.FuncKey(fn))
 		n := 0
-		for _, ci := range core.Calls(fn, gslb+".SubCluster.balance") {
+		for _, cc := range balCtxCalls(c.P, fn, balCallMatcher(gslb+".SubCluster.balance")) {
 			n++
-			sub := ci.Common().Args[0]
-			ok := subNotBlackhole(c, sub, ci.(ssa.Instruction).Block(), map[ssa.Value]bool{})
-			c.Check("blackhole-gate", fmt.Sprintf("BalanceGslb.Balance:balance#%d", n), ci.Pos(), ok,
-				"SubCluster.balance is called on "+core.Render(sub)+" without a dominating sType != blackhole test on that sub-cluster (directly, or through randomSelectExclude's predicate)")
+			ok := cc.Frames(cc.Call.Common().Args[0], func(v ssa.Value, b *ssa.BasicBlock) bool {
+				return subNotBlackhole(c, v, b, map[ssa.Value]bool{})
+			})
+			c.Check("blackhole-gate", fmt.Sprintf("BalanceGslb.Balance:balance#%d", n), cc.Call.Pos(), ok,
+				"SubCluster.balance is called on "+core.Render(cc.Arg(0))+" without a dominating sType != blackhole test on that sub-cluster (directly, or through randomSelectExclude's predicate)")
 		}
 		c.Min("blackhole-gate", 2)
 		// success returns hand out the result of SubCluster.balance under err == nil
@@ -345,19 +478,7 @@ func runC03(c *core.Ctx) {
 				}
 				continue
 			}
-			ok := false
-			if ex, isEx := core.StripConv(rv[0]).(*ssa.Extract); isEx && ex.Index == 0 {
-				if call, isCall := ex.Tuple.(*ssa.Call); isCall && core.CallIs(&call.Call, gslb+".SubCluster.balance") {
-					ok = core.HasGuard(r.Block(), func(g core.Guard) bool {
-						b, isB := g.Cond.(*ssa.BinOp)
-						if !isB || !isNilConst(b.Y) {
-							return false
-						}
-						ex1, isEx1 := b.X.(*ssa.Extract)
-						return isEx1 && ex1.Tuple == call && ex1.Index == 1 && ((b.Op == token.EQL && g.Pol) || (b.Op == token.NEQ && !g.Pol))
-					})
-				}
-			}
+			ok := balanceResult(c.P, fn, rv[0], balFactsAt(r.Block()), 0)
 			c.Check("gslb-return", fmt.Sprintf("BalanceGslb.Balance:return#%d", i), r.Pos(), ok, "success return does not hand out the result of SubCluster.balance under err == nil: "+core.Render(rv[0]))
 		}
 		c.Min("gslb-return", 2)
@@ -366,11 +487,12 @@ func runC03(c *core.Ctx) {
 	if fn := c.P.Func(gslb, "SubCluster.balance"); fn != nil {
 		c.Analysed(core.FuncKey(fn))
 		for i, r := range core.Returns(fn) {
-			if isNilConst(r.Results[1]) {
+			rv := core.RetVals(r)
+			if isNilConst(rv[1]) {
 				c.Check("gslb-return", fmt.Sprintf("SubCluster.balance:return#%d", i), r.Pos(), false, "SubCluster.balance returns a nil error without delegating to BalanceRR.Balance")
 				continue
 			}
-			if ex, ok := r.Results[1].(*ssa.Extract); ok {
+			if ex, ok := rv[1].(*ssa.Extract); ok {
 				call, _ := ex.Tuple.(*ssa.Call)
 				c.Check("gslb-return", fmt.Sprintf("SubCluster.balance:return#%d", i), r.Pos(), call != nil && core.CallIs(&call.Call, slb+".BalanceRR.Balance"), "SubCluster.balance must delegate to BalanceRR.Balance")
 			}
@@ -387,7 +509,7 @@ func runC03(c *core.Ctx) {
 	} else {
 		c.Analysed(core.FuncKey(fn))
 		n := 0
-		for _, in := range allInstrs(fn) {
+		for _, in := range balRegionInstrs(c.P, fn) {
 			b, ok := in.(*ssa.BinOp)
 			if !ok || b.Op != token.SUB {
 				continue
@@ -397,21 +519,43 @@ func runC03(c *core.Ctx) {
 				continue
 			}
 			n++
-			_, pos := eligibleByGuards(x, core.GuardsAt(in.Block()))
+			_, pos := balEligibleAt(c.P, x, in.Block())
 			c.Check("subcluster-walk", "subClusterBalance:subtract", in.Pos(), pos, "the cumulative walk subtracts the weight of a sub-cluster that was not tested for weight > 0; zero/negative-weight sub-clusters can be selected")
 		}
 		if n == 0 {
 			c.Check("subcluster-walk", "subClusterBalance:subtract", fn.Pos(), false, "no cumulative weight walk found")
 		}
-		// single mode indexes with bal.avail
-		for _, r := range core.Returns(fn) {
-			if !isNilConst(core.RetVals(r)[1]) {
-				continue
-			}
-			s := core.Render(core.RetVals(r)[0])
-			if strings.Contains(s, "bal.subClusters[") && !strings.Contains(s, "phi") {
-				c.Check("subcluster-walk", "subClusterBalance:single", r.Pos(), s == "bal.subClusters[bal.avail]" && core.HasGuard(r.Block(), func(g core.Guard) bool { return g.Pol && g.Str == "bal.single" }),
-					"single-sub-cluster shortcut must return bal.subClusters[bal.avail] under bal.single; got "+s)
+		// single mode indexes with bal.avail: a success return of the element at an index read from a
+		// field of the balancer must be subClusters[avail] under the single flag
+		scF, _ := c.P.Obj(gslb, "BalanceGslb.subClusters").(*types.Var)
+		avF, _ := c.P.Obj(gslb, "BalanceGslb.avail").(*types.Var)
+		sgF, _ := c.P.Obj(gslb, "BalanceGslb.single").(*types.Var)
+		for _, g := range balRegion(c.P, fn) {
+			for _, r := range core.Returns(g) {
+				rv := core.RetVals(r)
+				if len(rv) != 2 || !isNilConst(rv[1]) {
+					continue
+				}
+				list, index := balElemOfList(rv[0])
+				if list == nil || balLoadOfField(list, scF) == nil {
+					continue
+				}
+				iu, isLoad := core.StripConv(index).(*ssa.UnOp)
+				if !isLoad || iu.Op != token.MUL {
+					continue
+				}
+				if _, isFA := iu.X.(*ssa.FieldAddr); !isFA {
+					continue // an index computed by the walk, not a stored one
+				}
+				okIdx := balLoadOfField(index, avF) != nil
+				okFlag := false
+				for _, f := range balFactsCtx(c.P, r.Block()) {
+					if f.Pol && balLoadOfField(f.Cond, sgF) != nil {
+						okFlag = true
+					}
+				}
+				c.Check("subcluster-walk", "subClusterBalance:single", r.Pos(), okIdx && okFlag,
+					"single-sub-cluster shortcut must return bal.subClusters[bal.avail] under bal.single; got "+core.Render(rv[0]))
 			}
 		}
 	}
@@ -423,42 +567,10 @@ func runC03(c *core.Ctx) {
 		for _, st := range core.FieldStores(c.P.SrcFuncs(gslb), fld) {
 			fn := st.Fn
 			c.Analysed(core.FuncKey(fn))
-			// the stored index must come from a range over a list L; sort.Sort(L) must dominate the loop; L must be what bal.subClusters holds
-			sorts := core.Calls(fn, "sort.Sort")
-			dominated := false
-			for _, s := range sorts {
-				if core.Dominates(s.(ssa.Instruction), st.Store) {
-					dominated = true
-				}
-			}
-			_, positive := false, false
-			for _, g := range core.GuardsAt(st.Store.Block()) {
-				if b, ok := g.Cond.(*ssa.BinOp); ok && fieldLoadOf(b.X, "weight") != nil && isZero(b.Y) && b.Op == token.GTR && g.Pol {
-					positive = true
-				}
-			}
-			// a phi-carried index assigned under weight>0 inside the loop also counts
-			if !positive {
-				if phi, ok := st.Store.Val.(*ssa.Phi); ok {
-					positive = true
-					for i, ed := range phi.Edges {
-						if _, isPhi := ed.(*ssa.Phi); isPhi || isConstInt(ed) {
-							continue
-						}
-						okEdge := false
-						for _, g := range guardsOnEdge(phi.Block().Preds[i], phi.Block()) {
-							if b, ok := g.Cond.(*ssa.BinOp); ok && fieldLoadOf(b.X, "weight") != nil && isZero(b.Y) && b.Op == token.GTR && g.Pol {
-								okEdge = true
-							}
-						}
-						if !okEdge {
-							positive = false
-						}
-					}
-				}
-			}
-			c.Check("avail-index", core.FuncKey(fn), st.Store.Pos(), dominated && positive,
-				fmt.Sprintf("bal.avail must be the index of a weight>0 sub-cluster in the list after sort.Sort (sort dominates the store: %v, index taken under weight>0: %v); otherwise single-sub-cluster mode selects the wrong (possibly zero-weight or blackhole) sub-cluster", dominated, positive))
+			// the stored index must come from a loop over a list L under weight>0 of the element; sort.Sort(L) must dominate the loop
+			dominated, positive, why := balIndexOfSorted(c.P, st.Store.Val, balFactsAt(st.Store.Block()))
+			c.Check("avail-index", availKey(c.P, fn), st.Store.Pos(), dominated && positive,
+				fmt.Sprintf("bal.avail must be the index of a weight>0 sub-cluster in the list after sort.Sort (sort dominates the store: %v, index taken under weight>0: %v); otherwise single-sub-cluster mode selects the wrong (possibly zero-weight or blackhole) sub-cluster. %s", dominated, positive, why))
 		}
 		c.Min("avail-index", 2)
 	}
@@ -471,23 +583,68 @@ func runC03(c *core.Ctx) {
 	// the next element is visited, else a weight-0 backend is selectable.
 	{
 		n := 0
+		isUpdate := func(recv ssa.Value) func(x ssa.Instruction) bool {
+			return func(x ssa.Instruction) bool {
+				cc, ok := x.(ssa.CallInstruction)
+				if !ok {
+					return false
+				}
+				if _, isGo := x.(*ssa.Go); isGo {
+					return false
+				}
+				if core.CallIs(cc.Common(), slb+".BackendRR.updateSlowStart") {
+					return sameElem(cc.Common().Args[0], recv)
+				}
+				// a helper that is handed the element and updates it on every path
+				h := cc.Common().StaticCallee()
+				if h == nil || h.Blocks == nil || core.FuncPkgRel(h) != slb {
+					return false
+				}
+				for i, a := range cc.Common().Args {
+					if !sameElem(a, recv) || i >= len(h.Params) {
+						continue
+					}
+					pa := h.Params[i]
+					if core.AlwaysPasses(h, func(y ssa.Instruction) bool {
+						c2, ok := y.(ssa.CallInstruction)
+						return ok && core.CallIs(c2.Common(), slb+".BackendRR.updateSlowStart") && balAsParam(c2.Common().Args[0]) == pa
+					}, 1) {
+						return true
+					}
+				}
+				return false
+			}
+		}
 		for _, fn := range c.P.SrcFuncs(slb) {
 			for _, ci := range core.Calls(fn, slb+".BackendRR.initSlowStart") {
 				n++
 				c.Analysed(core.FuncKey(fn))
 				call := ci.(ssa.Instruction)
 				recv := ci.Common().Args[0]
-				bad := core.ReachAvoiding(fn, call, func(x ssa.Instruction) bool {
-					cc, ok := x.(ssa.CallInstruction)
-					return ok && core.CallIs(cc.Common(), slb+".BackendRR.updateSlowStart") && sameElem(cc.Common().Args[0], recv)
-				}, func(x ssa.Instruction) bool {
+				bad := core.ReachAvoiding(fn, call, isUpdate(recv), func(x ssa.Instruction) bool {
 					if core.IsReturn(x) {
 						return true
 					}
 					b := x.Block()
 					return b != call.Block() && b.Dominates(call.Block()) && b.Instrs[0] == x
 				})
-				c.Check("slowstart-pairing", core.FuncKey(fn), call.Pos(), bad == nil,
+				ok := bad == nil
+				if !ok && balAsParam(recv) != nil {
+					// the call sits in a private helper that is handed the element: the update may follow at the helper's call site
+					if s := balSingleSite(c.P, fn); s != nil {
+						if i := balParamIndex(balAsParam(recv)); i >= 0 && i < len(s.Common().Args) {
+							si := s.(ssa.Instruction)
+							ok = core.ReachAvoiding(s.Parent(), si, isUpdate(s.Common().Args[i]), func(x ssa.Instruction) bool {
+								if core.IsReturn(x) {
+									return true
+								}
+								b := x.Block()
+								return b != si.Block() && b.Dominates(si.Block()) && b.Instrs[0] == x
+							}) == nil
+						}
+					}
+				}
+				c.Check("slowstart-pairing", core.FuncKey(fn), call.Pos(), ok,
 					"initSlowStart (which sets weight=1 unconditionally) is not followed by updateSlowStart on the same backend before the next element/return; a backend configured with weight 0 stays selectable")
 			}
 		}
@@ -497,18 +654,75 @@ func runC03(c *core.Ctx) {
 
 	// ---- writers of BackendRR.weight -----------------------------------------
 	if fld, ok := c.P.Obj(slb, "BackendRR.weight").(*types.Var); ok {
-		allowed := map[string]bool{
-			slb + ".BackendRR.Init": true, slb + ".BackendRR.UpdateWeight": true,
-			slb + ".BackendRR.initSlowStart": true, slb + ".BackendRR.updateSlowStart": true,
+		var roots []*ssa.Function
+		for _, n := range []string{"BackendRR.Init", "BackendRR.UpdateWeight", "BackendRR.initSlowStart", "BackendRR.updateSlowStart"} {
+			roots = append(roots, c.P.Func(slb, n))
 		}
 		for _, st := range core.FieldStores(c.P.SrcFuncs(""), fld) {
 			k := core.FuncKey(st.Fn)
-			c.Check("weight-writers", k, st.Store.Pos(), allowed[k], "BackendRR.weight (the eligibility input) is written outside the reviewed writers Init/UpdateWeight/initSlowStart/updateSlowStart")
+			c.Check("weight-writers", k, st.Store.Pos(), balInAnyRegion(c.P, st.Fn, roots) != nil, "BackendRR.weight (the eligibility input) is written outside the reviewed writers Init/UpdateWeight/initSlowStart/updateSlowStart (and their private helpers)")
 		}
 		c.Min("weight-writers", 3)
 	} else {
 		c.Missing(slb + ".BackendRR.weight")
 	}
+}
+
+// availKey names the function a store to bal.avail belongs to: the exported
+// anchor (Init / Reload) when the store sits in one of its private helpers.
+func availKey(p *core.Prog, fn *ssa.Function) string {
+	const gslb = "bfe_balance/bal_gslb"
+	for _, n := range []string{"BalanceGslb.Init", "BalanceGslb.Reload"} {
+		if r := p.Func(gslb, n); r != nil && r != fn && balInRegion(p, r, fn) {
+			return core.FuncKey(r)
+		}
+	}
+	return core.FuncKey(fn)
+}
+
+// balanceResult: v (a value of root's region) is result #0 of
+// SubCluster.balance under a fact that its error result is nil; a private
+// helper of root whose every success return is such a value counts too.
+func balanceResult(p *core.Prog, root *ssa.Function, v ssa.Value, facts []balFact, depth int) bool {
+	const gslb = "bfe_balance/bal_gslb"
+	ex, isEx := core.StripConv(v).(*ssa.Extract)
+	if !isEx || ex.Index != 0 {
+		return false
+	}
+	call, isCall := ex.Tuple.(*ssa.Call)
+	if !isCall || !errNilGuarded(v, facts) {
+		return false
+	}
+	if core.CallIs(&call.Call, gslb+".SubCluster.balance") {
+		return true
+	}
+	h := call.Call.StaticCallee()
+	if h == nil || depth > 2 || !balInRegion(p, root, h) {
+		return false
+	}
+	n := 0
+	for _, r := range core.Returns(h) {
+		rv := core.RetVals(r)
+		if len(rv) != 2 {
+			return false
+		}
+		if !isNilConst(rv[1]) {
+			// `return sub.balance(...)`: both results of one call handed on; the caller tests err == nil
+			if e0, ok0 := core.StripConv(rv[0]).(*ssa.Extract); ok0 && e0.Index == 0 {
+				if e1, ok1 := core.StripConv(rv[1]).(*ssa.Extract); ok1 && e1.Index == 1 && e1.Tuple == e0.Tuple {
+					if k, isK := e0.Tuple.(*ssa.Call); isK && core.CallIs(&k.Call, gslb+".SubCluster.balance") {
+						n++
+					}
+				}
+			}
+			continue // the caller tests err == nil
+		}
+		n++
+		if !balanceResult(p, root, rv[0], balFactsAt(r.Block()), depth+1) {
+			return false
+		}
+	}
+	return n > 0
 }
 
 func isZero(v ssa.Value) bool {
@@ -528,16 +742,11 @@ func subNotBlackhole(c *core.Ctx, sub ssa.Value, b *ssa.BasicBlock, seen map[ssa
 		return true
 	}
 	seen[sub] = true
-	// direct guard: sub.sType == blackhole is false here
-	for _, g := range core.GuardsAt(b) {
-		bo, ok := g.Cond.(*ssa.BinOp)
-		if !ok {
-			continue
-		}
-		if x := fieldLoadOf(bo.X, "sType"); x != nil && sameElem(x, sub) {
-			if (bo.Op == token.EQL && !g.Pol) || (bo.Op == token.NEQ && g.Pol) {
-				return true
-			}
+	bh := balConstOf(c.P, "bfe_balance/bal_gslb", "TypeGslbBlackhole")
+	// direct guard: sub.sType == blackhole is false here (either spelling; also through a predicate helper)
+	for _, f := range balFactsAt(b) {
+		if x, _, op, other, ok := balFieldCmp(f, "sType"); ok && op == token.NEQ && balSame(f, x, sub) && (bh == "" || balConstIs(other, bh)) {
+			return true
 		}
 	}
 	switch x := sub.(type) {
@@ -584,52 +793,115 @@ func errKnownNonNil(v ssa.Value, b *ssa.BasicBlock) bool {
 // (!= exclude, weight >= 0, sType != blackhole). Shared by C03 (never an
 // ineligible target) and C08 (a cross retry never returns to the assigned
 // sub-cluster).
+//
+// The sites are found by role, in randomSelectExclude and its private
+// helpers: a counting site is an increment that feeds the modulus of the
+// random draw (`% n`, rand.Intn(n)); a selecting site is a return with a nil
+// error. The conjuncts may be spelled in either operand order / polarity and
+// may sit in a boolean predicate helper (its parameters are bound to the
+// call's arguments); "exclude" is randomSelectExclude's own parameter.
 func checkExcludePredicate(c *core.Ctx, rule string) {
+	defer balAcquire(c.P)()
 	const gslb = "bfe_balance/bal_gslb"
-	// ---- randomSelectExclude: both loops use the same 3-conjunct predicate -
-	if fn := c.P.Func(gslb, "BalanceGslb.randomSelectExclude"); fn == nil {
+	fn := c.P.Func(gslb, "BalanceGslb.randomSelectExclude")
+	if fn == nil {
 		c.Missing(gslb + ".BalanceGslb.randomSelectExclude")
-	} else {
-		c.Analysed(core.FuncKey(fn))
-		// collect, per loop body, the set of predicate conjunct kinds guarding (a) the count increment, (b) the success return
-		want := []string{"!=exclude", "weight>=0", "sType!=blackhole"}
-		sites := 0
-		check := func(in ssa.Instruction, what string) {
-			sites++
-			got := map[string]bool{}
-			for _, g := range core.GuardsAt(in.Block()) {
-				b, ok := g.Cond.(*ssa.BinOp)
-				if !ok {
-					continue
-				}
-				switch {
-				case fieldLoadOf(b.X, "weight") != nil && isZero(b.Y) && ((b.Op == token.GEQ && g.Pol) || (b.Op == token.LSS && !g.Pol) || (b.Op == token.GTR && g.Pol)):
-					got["weight>=0"] = true
-				case fieldLoadOf(b.X, "sType") != nil && ((b.Op == token.NEQ && g.Pol) || (b.Op == token.EQL && !g.Pol)) && strings.Contains(core.Render(b.Y), "1"):
-					got["sType!=blackhole"] = true
-				case ((b.Op == token.NEQ && g.Pol) || (b.Op == token.EQL && !g.Pol)) && (core.Render(b.Y) == "excludeCluster" || core.Render(b.X) == "excludeCluster"):
+		return
+	}
+	c.Analysed(core.FuncKey(fn))
+	bh := balConstOf(c.P, gslb, "TypeGslbBlackhole")
+	want := []string{"!=exclude", "weight>=0", "sType!=blackhole"}
+	sites := 0
+	check := func(in ssa.Instruction, what string) {
+		sites++
+		got := map[string]bool{}
+		for _, f := range balFactsCtx(c.P, in.Block()) {
+			if _, _, op, other, ok := balFieldCmp(f, "weight"); ok && ((op == token.GEQ && isZero(other)) || (op == token.GTR && isZero(other)) || (op == token.GTR && balConstIs(other, "-1"))) {
+				got["weight>=0"] = true
+			}
+			if _, _, op, other, ok := balFieldCmp(f, "sType"); ok && op == token.NEQ && bh != "" && balConstIs(other, bh) {
+				got["sType!=blackhole"] = true
+			}
+			if op, x, y, ok := f.G().Cmp(); ok && op == token.NEQ {
+				if balIsParam(c.P, f.res(x), fn, 1) || balIsParam(c.P, f.res(y), fn, 1) {
 					got["!=exclude"] = true
 				}
 			}
-			var missing []string
-			for _, w := range want {
-				if !got[w] {
-					missing = append(missing, w)
+		}
+		var missing []string
+		for _, w := range want {
+			if !got[w] {
+				missing = append(missing, w)
+			}
+		}
+		c.Check(rule, "randomSelectExclude:"+what, in.Pos(), len(missing) == 0, "cross-retry candidate predicate lacks conjunct(s) "+strings.Join(missing, ", ")+" at the "+what)
+	}
+	// counting sites: additions reached backwards from the modulus of the random draw
+	counted := map[ssa.Instruction]bool{}
+	for _, in := range balRegionInstrs(c.P, fn) {
+		var mod ssa.Value
+		switch x := in.(type) {
+		case *ssa.BinOp:
+			if x.Op == token.REM {
+				mod = x.Y
+			}
+		case *ssa.Call:
+			k := core.CalleeKey(&x.Call)
+			if strings.HasPrefix(k, "math/rand.") && len(x.Call.Args) > 0 && (strings.HasSuffix(k, "Intn") || strings.HasSuffix(k, "Int31n") || strings.HasSuffix(k, "Int63n")) {
+				mod = x.Call.Args[len(x.Call.Args)-1]
+			}
+		}
+		if mod == nil {
+			continue
+		}
+		seen := map[ssa.Value]bool{}
+		var walk func(v ssa.Value, d int)
+		walk = func(v ssa.Value, d int) {
+			v = core.StripConv(v)
+			if v == nil || seen[v] || d > 10 {
+				return
+			}
+			seen[v] = true
+			switch x := v.(type) {
+			case *ssa.Phi:
+				for _, e := range x.Edges {
+					walk(e, d+1)
+				}
+			case *ssa.BinOp:
+				if x.Op == token.ADD {
+					if _, isK := x.Y.(*ssa.Const); isK {
+						counted[x] = true
+						walk(x.X, d+1)
+					} else if _, isK := x.X.(*ssa.Const); isK {
+						counted[x] = true
+						walk(x.Y, d+1)
+					}
+				}
+			case *ssa.Call, *ssa.Extract:
+				if _, h, idx := balCallee(x); h != nil && balInRegion(c.P, fn, h) {
+					for _, r := range balResults(h, idx) {
+						walk(r, d+1)
+					}
+				}
+			case *ssa.Parameter:
+				if u := balUp(c.P, x); u != ssa.Value(x) {
+					walk(u, d+1)
 				}
 			}
-			c.Check(rule, "randomSelectExclude:"+what, in.Pos(), len(missing) == 0, "cross-retry candidate predicate lacks conjunct(s) "+strings.Join(missing, ", ")+" at the "+what)
 		}
-		for _, in := range allInstrs(fn) {
-			if b, ok := in.(*ssa.BinOp); ok && b.Op == token.ADD && strings.HasPrefix(core.Render(b.X), "available") {
-				check(in, "count")
-			}
-			if r, ok := in.(*ssa.Return); ok && isNilConst(core.RetVals(r)[1]) {
-				check(in, "selection")
-			}
-		}
-		if sites < 2 {
-			c.Check(rule, "randomSelectExclude:sites", fn.Pos(), false, fmt.Sprintf("expected a counting site and a selecting site, found %d", sites))
+		walk(mod, 0)
+	}
+	for _, in := range balRegionInstrs(c.P, fn) {
+		if counted[in] {
+			check(in, "count")
 		}
 	}
-
+	for _, r := range core.Returns(fn) {
+		if rv := core.RetVals(r); len(rv) == 2 && isNilConst(rv[1]) {
+			check(r, "selection")
+		}
+	}
+	if sites < 2 || len(counted) == 0 {
+		c.Check(rule, "randomSelectExclude:sites", fn.Pos(), false, fmt.Sprintf("expected a counting site (an increment feeding the modulus of the random draw) and a selecting site, found %d sites, %d of them counting", sites, len(counted)))
+	}
 }
